@@ -283,7 +283,7 @@ func runC03(w *W) {
 	r := w.rng("c03floats")
 	nRand := 1000000
 	if th {
-		nRand = 12000000
+		nRand = 40000000
 	}
 	for i := 0; i < nRand; i++ {
 		f := math.Float64frombits(r.Uint64())
@@ -306,7 +306,7 @@ func runC03(w *W) {
 	// 4. halfway cases between adjacent doubles
 	nHalf := 30000
 	if th {
-		nHalf = 300000
+		nHalf = 1200000
 	}
 	for i := 0; i < nHalf; i++ {
 		bits := r.Uint64() &^ (1 << 63)
